@@ -130,14 +130,17 @@ theorem unfold_dim_spec (x y : NDArray R) (hx : x.WF) (dimension size step : Int
       rw [hg]
 
 /-- **sum over the named dims**: the value at an output index is the sum of the inputs that agree
-    with it off the reduced axes; the shape drops (or keeps as 1) exactly the reduced axes. -/
+    with it off the reduced axes; the shape drops (or keeps as 1) exactly the reduced axes.  The dims
+    are normalised by `Axes.normRed` (`axes_normRed_iff`): `None`, an int in `[-ndim, ndim)`, a tuple of
+    distinct in-range ints — and, on a 0-d operand, the ints `0` and `-1`, which name no axis
+    (`axes = []`: the result is the operand, `sum_zero_dim`). -/
 theorem sum_spec (x y : NDArray R) (hx : x.WF) (ax : Axes) (keep : Bool) (h : sumForward x ax keep = some y) :
-    ∃ axes, ax.norm x.shape.length = some axes ∧ y.shape = reduceShape x.shape axes keep ∧
+    ∃ axes, ax.normRed x.shape.length = some axes ∧ y.shape = reduceShape x.shape axes keep ∧
       ∀ o, validIdx y.shape o →
         y.get o = (((allIdx x.shape).filter (fun i => reduceIdx axes keep i == o)).map x.get).sum := by
   have _ := hx
   unfold sumForward Np.sum at h
-  cases h0 : ax.norm x.shape.length with
+  cases h0 : ax.normRed x.shape.length with
   | none => simp [h0] at h
   | some axes =>
     simp only [h0, Option.bind_eq_bind, Option.bind_some, Option.pure_def, Option.some.injEq] at h
@@ -145,6 +148,12 @@ theorem sum_spec (x y : NDArray R) (hx : x.WF) (ax : Axes) (keep : Bool) (h : su
     refine ⟨axes, rfl, rfl, ?_⟩
     intro o ho
     exact get_scatterAdd _ _ _ _ _ ho
+
+/-- `sum` is accepted exactly when its dims normalise (`axes_normRed_iff` spells the condition out) -/
+theorem sum_accepts_iff (x : NDArray R) (ax : Axes) (keep : Bool) :
+    (sumForward x ax keep).isSome ↔ (ax.normRed x.shape.length).isSome := by
+  unfold sumForward Np.sum
+  cases ax.normRed x.shape.length <;> simp
 
 /-- **matmul**: `out[…, i, j] = Σ_t a[…, i, t]·b[…, t, j]` with NumPy batch broadcasting; operands of
     rank < 2 are rejected. -/
@@ -326,7 +335,7 @@ namespace covers them.  Reading, for all ranks / sizes / arguments, over any com
 * `stack_spec`       accepted ⇔ non-empty, dim in [-(n+1), n+1), equal shapes; `y[insert k at a into q] = xs[k][q]`
 * `unbind_spec`      one output per index along the axis, `ys[k][q] = x[insert k at a into q]`
 * `index_spec`       the whole supported index language (ints incl. negative, slices with any non-zero step, one `...`, `None`, one integer list): acceptance, shape, entry position per axis; `slice_positions_pos/neg`: Python's slice arithmetic selects exactly start, start+step, … inside [start, stop)
-* `mul_spec`, `neg_spec`, `mean_spec` (sum of the fibre / number of its elements, `mean_count`), `max_spec`, `min_spec` (attained on the fibre and dominating it) -/
+* `mul_spec`, `neg_spec`, `mean_spec` (sum of the fibre / number of its elements, `mean_count`), `max_spec`, `min_spec` (attained on the fibre and dominating it; an int dim must satisfy `RedDimOk`: in range, or 0 / −1 on a 0-d operand) -/
 alias transpose_spec := Proofs.SpecOps.transpose_spec
 alias transpose_same := Proofs.SpecOps.transpose_same
 alias movedim_spec := Proofs.SpecOps.movedim_spec
@@ -348,5 +357,14 @@ alias mean_spec := Proofs.SpecOps.mean_spec
 alias mean_count := Proofs.SpecOps.mean_count
 alias max_spec := Proofs.SpecOps.max_spec
 alias min_spec := Proofs.SpecOps.min_spec
+/-! the dims of sum / max / min, and the 0-d operand with `dim = 0 / -1` (accepted, nothing reduced; `mean` rejects) -/
+alias axes_norm_iff := Proofs.SpecOps.axes_norm_iff
+alias axes_normRed_iff := Proofs.SpecOps.axes_normRed_iff
+alias sum_zero_dim_accepts := Proofs.SpecOps.sum_zero_dim_accepts
+alias sum_zero_dim := Proofs.Adjoint.sum_zero_dim
+alias max_zero_dim_accepts := Proofs.SpecOps.max_zero_dim_accepts
+alias max_zero_dim := Proofs.SpecOps.max_zero_dim
+alias min_zero_dim := Proofs.SpecOps.min_zero_dim
+alias mean_zero_dim_rejects := Proofs.SpecOps.mean_zero_dim_rejects
 
 end Props.C05
